@@ -1,10 +1,11 @@
 (* C15 - Change markers never enclose block-level structure (chunk-stream level).
-   [partial]: single-sided views and every group of the combined view are proved; that the
-   reconciliation emits groups contiguously and that the HTML parser does not move a block into a
-   marker are checked per input by the document-level observer. *)
+   Proved for the single-sided views and for the combined view (its stream is a sequence of whole
+   closed groups and loose tags, through reconciliation, for all opcode lists).  [partial] at
+   document level: that the HTML parser does not move a block into a marker when it re-parses the
+   stream is checked per input by the observer. *)
 From Coq Require Import List NArith Arith Bool String.
 From WMD Require Import Gen.Tables Lib.Str Lib.PyChars Lib.Escape Lib.Difflib Model.RenderTokens Model.RenderMerge
-     Proofs.DifflibProofs Proofs.MergeProofs Proofs.TokenProofs Proofs.AssembleProofs Proofs.RenderProofs.
+     Proofs.DifflibProofs Proofs.MergeProofs Proofs.TokenProofs Proofs.AssembleProofs Proofs.RenderProofs Proofs.ReconcileProofs Proofs.CombinedProofs.
 Import ListNotations.
 Open Scope N_scope.
 
@@ -23,6 +24,14 @@ Proof. exact view_no_block_in_marker. Qed.
    block-level chunk; block-level tags are always loose items outside groups *)
 Theorem C15_groups : forall chunks, groups_closed (merge_groups_l chunks None).
 Proof. intros chunks. exact (merge_groups_closed chunks None I). Qed.
+
+(* the combined view: for all token lists and ALL opcode lists the stream is a sequence of items;
+   every marker is opened and closed inside one group whose labelled form scans clean (no
+   block-level chunk between open and close), and everything between groups is a loose tag *)
+Theorem C15_combined : forall old new ops,
+  exists out, assemble_diff MCombined old new ops = flat out /\
+              Forall (fun it => match it with IGroup g => closed_group g | ITag s => starts_lt s = true end) out.
+Proof. exact combined_groups_closed. Qed.
 
 (* the labelled machines are the executable model *)
 Theorem C15_labelled_is_model : forall chunks tt,
